@@ -24,7 +24,7 @@ ASSUMPTIONS = ["numpy linear algebra", "reference gate table and Pauli applicati
                "delegating simulation to cirq", "sympy receives the initial state as an msq_first column array (its documented format)"]
 SHARDS = {"quick": 4, "thorough": 16}
 
-CTYPES = ["float", "float", "int", "np.float64", "complex", "np.complex128", "mixed"]
+CTYPES = ["float", "complex", "int", "np.float64", "np.complex128", "mixed", "float"]
 
 
 def selftest():
@@ -38,7 +38,7 @@ def coef_of(ctype, i, re, im):
     if ctype == "float":
         return float(re)
     if ctype == "int":
-        return int(round(re))
+        return int(round(3 * re))
     if ctype == "np.float64":
         return np.float64(re)
     if ctype == "complex":
@@ -106,9 +106,17 @@ def nontrivial(coefs, psi):
     return len(words) >= 2 and xy and int(np.sum(np.abs(psi) > 1e-6)) >= 2
 
 
+def to_complex(x):
+    """Number returned by Tangelo (python/numpy/sympy scalar, or a one-element array of those) -> complex."""
+    a = np.asarray(x)
+    if a.size != 1:
+        raise TypeError("not a scalar")
+    return complex(a.reshape(-1)[0])
+
+
 def near(got, want, tol, sig, what, **details):
     try:
-        g = complex(got)
+        g = to_complex(got)
     except TypeError:
         raise Fail(f"{what}: returned {got!r} (not a number)", sig=sig + ":type")
     if not (abs(g - want) <= tol):
@@ -117,16 +125,34 @@ def near(got, want, tol, sig, what, **details):
 
 @st.composite
 def operators(draw, n, max_terms=8):
-    mt = 1 if draw(st.integers(0, 5)) == 3 else 2
-    terms = draw(st.lists(S.pauli_terms(n), min_size=mt, max_size=max(mt, max_terms), unique_by=lambda t: tuple(map(tuple, t))))
-    coef = st.one_of(st.floats(-3, 3, allow_nan=False), st.sampled_from([0.0, 1.0, -1.0, 0.5, 2.0]))
+    mt = 1 if draw(st.integers(0, 5)) == 3 else 3
+    word = st.one_of(S.pauli_terms(n, min_weight=1), S.pauli_terms(n, min_weight=1), S.pauli_terms(n))
+    terms = draw(st.lists(word, min_size=mt, max_size=max(mt, max_terms), unique_by=lambda t: tuple(map(tuple, t))))
+    fl = st.floats(-3, 3, allow_nan=False)
+    coef = st.one_of(fl, fl, fl, st.sampled_from([1.0, -1.0, 0.5, 2.0, 0.0]))
     return {"ctype": draw(st.sampled_from(CTYPES)),
             "terms": [[t, draw(coef), draw(st.floats(-3, 3, allow_nan=False))] for t in terms]}
 
 
 @st.composite
+def spread(draw, c, names=None):
+    """Prepend one-qubit rotations on a random subset of qubits so that most states are superpositions
+    (random gates applied to |0...0> alone leave a basis state far too often)."""
+    n = S.circuit_width(c)
+    pre = []
+    for q in range(n):
+        k = draw(st.integers(0, 3))
+        if k == 1:
+            pre.append({"n": "H", "t": [q], "c": None, "p": None})
+        elif k >= 2:
+            pre.append({"n": "RY" if k == 2 else "RX", "t": [q], "c": None, "p": draw(S.angles(big=False))})
+    c["gates"] = pre + c["gates"]
+
+
+@st.composite
 def pure_cases(draw, max_width, max_gates, names=None, max_terms=8, min_width=1, **kw):
     c = draw(S.circuits(max_width=max_width, max_gates=max_gates, names=names, min_width=min_width, min_gates=2, **kw))
+    draw(spread(c))
     if draw(st.integers(0, 11)) == 7:
         c["gates"] = []          # identity state preparation (frequency route reached publicly)
     n = S.circuit_width(c)
@@ -140,9 +166,12 @@ def pure_cases(draw, max_width, max_gates, names=None, max_terms=8, min_width=1,
 @st.composite
 def measured_cases(draw, max_width, max_gates, max_meas=3, max_terms=8):
     c = draw(S.circuits(max_width=max_width, max_gates=max_gates, min_gates=2))
+    draw(spread(c))
     n = S.circuit_width(c)
     for _ in range(draw(st.integers(1, max_meas))):
         pos = draw(st.integers(0, len(c["gates"])))
+        if draw(st.booleans()):
+            pos = len(c["gates"]) - pos      # small integers are over-represented: aim at both ends of the circuit
         c["gates"].insert(pos, {"n": "MEASURE", "t": [draw(st.integers(0, n - 1))], "c": None, "p": None})
     c["init"] = draw(S.statevectors(n)) if draw(st.integers(0, 2)) == 0 else None
     c["op"] = draw(operators(n, max_terms))
@@ -154,7 +183,7 @@ def pick_branch(case, n, init, pmin):
     brs = H.branches(case["gates"], n, init)
     ok = sorted((b for b in brs if b[1] >= pmin), key=lambda b: b[0])
     if not ok:
-        raise Skip("no outcome string with enough probability")     # cannot happen: the likeliest of <=8 outcomes has p>=1/8
+        raise Skip("no outcome string with enough probability")
     return brs, ok[case["pick"] % len(ok)]
 
 
@@ -290,11 +319,7 @@ def sympy_part(ctx):
             v = init if be.backend_info()["statevector_order"] == "lsq_first" else R.reverse_order(init)
             iv = np.asarray(v).reshape(-1, 1)
         got = be.get_expectation_value(build_op(coefs), circ, initial_statevector=iv)
-        try:
-            g = complex(got)
-        except TypeError:
-            raise Fail(f"sympy get_expectation_value returned a non-numeric expression {got!r}", sig="sympy:expectation:type")
-        near(g, want, 1e-6 * max(1.0, sum(abs(c) for c in terms.values())), "sympy:expectation", "sympy get_expectation_value")
+        near(got, want, 1e-6 * max(1.0, sum(abs(c) for c in terms.values())), "sympy:expectation", "sympy get_expectation_value")
         return nontrivial(coefs, psi), op_labels(case["op"], coefs, n) | circ_labels(case, n)
 
     ctx.search("sympy", pure_cases(3, mg, names=SYMPY_NAMES, max_terms=3, max_controls=2, angle=ang), body)
@@ -302,22 +327,28 @@ def sympy_part(ctx):
 
 # ------------------------------------------------------------------------------------------------ finite shots
 
-@part("sampled", quick=120, thorough=3600)
-def sampled(ctx):
+def sampled_search(ctx, name, flavours):
     from tangelo.linq import get_backend
     mw, mg = (4, 10) if ctx.tier == "quick" else (5, 16)
 
     @st.composite
     def cases(draw):
-        flavour = draw(st.sampled_from(["pure", "pure", "mixed", "postselect"]))
-        c = draw(pure_cases(mw, mg, max_terms=5)) if flavour == "pure" else draw(measured_cases(mw, mg, max_terms=5))
+        flavour = draw(st.sampled_from(flavours))
+        if flavour == "pure":
+            c = draw(pure_cases(mw, mg, max_terms=5))
+        elif flavour == "mixed":
+            c = draw(measured_cases(mw, mg, max_terms=5))
+        else:
+            # cirq simulates these shot by shot: small circuits, few words; <=2 MEASURE gates so that an outcome string
+            # of probability >= 1/4 always exists (enough surviving shots for a meaningful band)
+            c = draw(measured_cases(3, 6, max_meas=2, max_terms=3))
         c["flavour"] = flavour
-        c["shots"] = draw(st.sampled_from([1, 10, 1000, 20000]))
+        c["shots"] = draw(st.sampled_from([1000, 20000, 10, 1] if flavour == "pure" else [300, 2000, 10, 1] if flavour == "mixed" else [1000] if ctx.tier == "quick" else [1000, 4000]))
         return c
 
     def body(case):
         n = S.circuit_width(case)
-        N = case["shots"]
+        N = Neff = case["shots"]
         init = S.build_statevector(case["init"], n)
         coefs = op_coefs(case["op"])
         terms = ref_terms(coefs)
@@ -330,9 +361,16 @@ def sampled(ctx):
             e = H.mixed_term_expectations(terms, brs, n)
             psi = brs[0][2]
         else:
-            brs, (bits, p, psi) = pick_branch(case, n, init, 0.05)
+            brs, (bits, p, psi) = pick_branch(case, n, init, 0.2499)
             e = H.term_expectations(terms, psi, n)
             kw = {"desired_meas_result": bits}
+            # Post-selection may be done by filtering the N shots (M ~ Binomial(N, p) of them survive) or by drawing N
+            # post-selected samples; both sample the same distribution. The bands below use the smallest plausible
+            # number of surviving shots (P(M < Neff) <= 1e-11), and bands shrink monotonically with the sample size.
+            from scipy.stats import binom
+            Neff = int(min(N, binom.ppf(1e-11, N, min(p, 1.0))))
+            if Neff < 1:
+                raise Skip("post-selected sample could be empty")
         want = H.expectation(terms, e)
         iv = lambda: None if init is None else init.copy()
         rnd = 1e-9 * max(1.0, sum(abs(c) for c in terms.values()))
@@ -340,15 +378,15 @@ def sampled(ctx):
 
         be = get_backend("cirq", n_shots=N)
         ctx.np_seed(case)
-        got = complex(be.get_expectation_value(build_op(coefs), S.build_circuit(case), initial_statevector=iv(), **kw))
+        got = to_complex(be.get_expectation_value(build_op(coefs), S.build_circuit(case), initial_statevector=iv(), **kw))
         for nm, g, w, cf in (("real", got.real, want.real, {t: c.real for t, c in terms.items()}),
                              ("imag", got.imag, want.imag, {t: c.imag for t, c in terms.items()})):
-            band = H.estimate_band(cf, e, N) + rnd
+            band = H.estimate_band(cf, e, Neff) + rnd
             if not abs(g - w) <= band:
                 raise Fail(f"{what}: {nm} part of the estimate is {g}, exact value {w}, rigorous band {band:.3g} (p<1e-11)",
                            sig=f"sampled:{case['flavour']}:estimate")
         words = [t for t, c in terms.items() if t and c != 0]
-        if len(words) == 1 and len([t for t in terms if t]) == 1 and not is_complex_op(coefs):
+        if len(words) == 1 and len([t for t in terms if t]) == 1 and not is_complex_op(coefs) and Neff == N:
             # single Pauli word: the estimate is c*(1-2j/N) (+ constant) for an integer number j of -1 outcomes
             c1 = terms[words[0]].real
             j = (1 - (got.real - terms.get((), 0).real) / c1) * N / 2
@@ -356,23 +394,36 @@ def sampled(ctx):
                 raise Fail(f"{what}: one-word estimate {got.real} is not c*(1-2j/N) for an integer j (j={j})", sig="sampled:granularity")
 
         w2 = {t: abs(c) ** 2 for t, c in terms.items()}
-        lo, hi = H.variance_interval(w2, e, N, len(terms))
+        lo, hi = H.variance_interval(w2, e, Neff, len(terms))
         slack = 1e-9 * max(1.0, sum(w2.values()))
         ctx.np_seed({"v": case})
         var = be.get_variance(build_op(coefs), S.build_circuit(case), initial_statevector=iv(), **kw)
-        var = complex(var)
+        var = to_complex(var)
         if abs(var.imag) > slack or not (lo - slack <= var.real <= hi + slack):
             raise Fail(f"{what}: reported variance {var} outside [{lo:.6g}, {hi:.6g}] (interval for sum |c_k|^2 (1-m_k^2), p<1e-10)",
                        sig=f"sampled:{case['flavour']}:variance")
+        if case["flavour"] == "postselect":
+            # get_standard_error only forwards to get_variance; not sampled a third time for these shot-by-shot simulations
+            return nontrivial(coefs, psi), op_labels(case["op"], coefs, n) | circ_labels(case, n) | {f"shots={N}", "flavour=postselect"}
         ctx.np_seed({"s": case})
-        se = complex(be.get_standard_error(build_op(coefs), S.build_circuit(case), initial_statevector=iv(), **kw))
+        se = to_complex(be.get_standard_error(build_op(coefs), S.build_circuit(case), initial_statevector=iv(), **kw))
         if abs(se.imag) > slack or not (np.sqrt(max(lo - slack, 0) / N) - slack <= se.real <= np.sqrt((hi + slack) / N) + slack):
             raise Fail(f"{what}: reported standard error {se} outside [sqrt({lo:.6g}/N), sqrt({hi:.6g}/N)]",
                        sig=f"sampled:{case['flavour']}:standard-error")
         labs = op_labels(case["op"], coefs, n) | circ_labels(case, n) | {f"shots={N}", "flavour=" + case["flavour"]}
         return nontrivial(coefs, psi), labs
 
-    ctx.search("sampled", cases(), body)
+    ctx.search(name, cases(), body)
+
+
+@part("sampled", quick=100, thorough=3200)
+def sampled(ctx):
+    sampled_search(ctx, "sampled", ["pure", "mixed", "pure"])
+
+
+@part("sampled_postselect", quick=12, thorough=400)
+def sampled_postselect(ctx):
+    sampled_search(ctx, "sampled_postselect", ["postselect"])
 
 
 # ------------------------------------------------------------------------------------------------ operators wider than the circuit
@@ -385,7 +436,16 @@ def too_wide(ctx):
     def cases(draw):
         c = draw(S.circuits(max_width=3, max_gates=4, min_gates=1, allow_fixed=False))
         n = S.circuit_width(c)
-        op = draw(operators(n + 2, 3))
+        op = draw(operators(n, 3))
+        # one more word with at most n factors (so that its *length* fits) reaching beyond the last qubit, or a longer one
+        k = draw(st.integers(1, n + 1))
+        qs = sorted(draw(st.lists(st.integers(0, n + 2), min_size=k, max_size=k, unique=True)))
+        if qs[-1] < n:
+            qs[-1] = n + draw(st.integers(0, 2))
+        qs = sorted(set(qs))
+        word = [[q, draw(st.sampled_from("ZXY"))] for q in qs]
+        coef = draw(st.sampled_from([1.0, -0.5, 2.0]))
+        op["terms"].insert(draw(st.integers(0, len(op["terms"]))), [word, coef, coef])
         c["op"] = op
         c["route"] = draw(st.sampled_from(["cirq", "generic", "cirq-shots", "variance"]))
         return c
@@ -393,7 +453,7 @@ def too_wide(ctx):
     def body(case):
         n = S.circuit_width(case)
         coefs = op_coefs(case["op"])
-        if not any(q >= n for t in coefs for q, _ in t):
+        if not any(q >= n and c != 0 for t, c in coefs.items() for q, _ in t):
             raise Skip("operator fits the circuit")
         circ = S.build_circuit(case)
         r = case["route"]
